@@ -758,6 +758,7 @@ func (fc *funcContext) translateExpr(expr ast.Expr) *expression {
 				}
 
 				methodName := fc.methodName(sel.Obj().(*types.Func))
+				recv = fc.hoistCallee(e, f.X, recv)
 				return fc.translateCall(e, sig, fc.formatExpr("%s.%s", recv, methodName))
 
 			case types.FieldVal:
@@ -773,7 +774,8 @@ func (fc *funcContext) translateExpr(expr ast.Expr) *expression {
 						fc.pkgCtx.errList = append(fc.pkgCtx.errList, types.Error{Fset: fc.pkgCtx.fileSet, Pos: f.Pos(), Msg: "field with js tag can not have func type with multiple results"})
 					}
 				}
-				return fc.translateCall(e, sig, fc.formatExpr("%e.%s", f.X, strings.Join(fields, ".")))
+				fun := fc.hoistCallee(e, f.X, fc.formatExpr("%e.%s", f.X, strings.Join(fields, ".")))
+				return fc.translateCall(e, sig, fun)
 
 			case types.MethodExpr:
 				return fc.translateCall(e, sig, fc.translateExpr(f))
@@ -782,7 +784,7 @@ func (fc *funcContext) translateExpr(expr ast.Expr) *expression {
 				panic(fmt.Sprintf("unexpected sel.Kind(): %T", sel.Kind()))
 			}
 		default:
-			return fc.translateCall(e, sig, fc.translateExpr(plainFun))
+			return fc.translateCall(e, sig, fc.hoistCallee(e, plainFun, fc.translateExpr(plainFun)))
 		}
 
 	case *ast.StarExpr:
@@ -881,6 +883,49 @@ func (fc *funcContext) translateCall(e *ast.CallExpr, sig *types.Signature, fun 
 	return fc.formatExpr("%s(%s)", fun, strings.Join(args, ", "))
 }
 
+// hoistCallee makes sure that the calls and receive operations in the operand
+// that yields the called function value or the method receiver (x, translated as
+// callee) happen before the ones in the arguments of call.
+//
+// Arguments that may block are evaluated in statements of their own that precede
+// the statement of the call, so a callee operand with such operations has to
+// be evaluated into a variable before them.
+func (fc *funcContext) hoistCallee(call *ast.CallExpr, x ast.Expr, callee *expression) *expression {
+	if !fc.calleeNeedsHoisting(call, x) {
+		return callee
+	}
+	calleeVar := fc.newLocalVariable("_callee")
+	fc.Printf("%s = %s;", calleeVar, callee)
+	return fc.formatExpr("%s", calleeVar)
+}
+
+// calleeNeedsHoisting reports whether some argument of call is evaluated in a
+// statement of its own and the operand x contains a call or a receive operation.
+func (fc *funcContext) calleeNeedsHoisting(call *ast.CallExpr, x ast.Expr) bool {
+	hoistedArgs := false
+	for _, arg := range call.Args {
+		hoistedArgs = hoistedArgs || fc.Blocking[arg]
+	}
+	if !hoistedArgs {
+		return false
+	}
+	ordered := false
+	ast.Inspect(x, func(n ast.Node) bool {
+		switch n := n.(type) {
+		case *ast.FuncLit:
+			return false
+		case *ast.CallExpr:
+			if tv, ok := fc.pkgCtx.Types[n.Fun]; !ok || !tv.IsType() {
+				ordered = true
+			}
+		case *ast.UnaryExpr:
+			ordered = ordered || n.Op == token.ARROW
+		}
+		return !ordered
+	})
+	return ordered
+}
+
 // delegatedCall returns a pair of JS expressions representing a callable function
 // and its arguments to be invoked elsewhere.
 //
@@ -902,11 +947,16 @@ func (fc *funcContext) delegatedCall(expr *ast.CallExpr) (callable *expression, 
 		isJs = typesutil.IsJsPackage(fc.pkgCtx.Uses[fun.Sel].Pkg())
 	}
 	sig := typesutil.Signature{Sig: fc.typeOf(expr.Fun).Underlying().(*types.Signature)}
+	if !isBuiltin && !isJs && fc.calleeNeedsHoisting(expr, expr.Fun) {
+		callable = fc.hoistCallee(expr, expr.Fun, fc.translateExpr(expr.Fun))
+	}
 	args := fc.translateArgs(sig.Sig, expr.Args, expr.Ellipsis.IsValid())
 
 	if !isBuiltin && !isJs {
 		// Normal function calls don't require wrappers.
-		callable = fc.translateExpr(expr.Fun)
+		if callable == nil {
+			callable = fc.translateExpr(expr.Fun)
+		}
 		arglist = fc.formatExpr("[%s]", strings.Join(args, ", "))
 		return callable, arglist
 	}
